@@ -6,211 +6,677 @@ import (
 	"strings"
 )
 
-// C11 facts: the shape of the watch loop (every `continue` and whether a time.Sleep precedes it in its block,
-// the one-second floor, the once flag), the single store load per handshake, the build-index-then-store order
-// of SetCertificates, and which names are lower-cased in store.go.
+// C11 facts. What is pinned is the MEANING the Lean model depends on, not the spelling of the source:
+//
+//   - variables are identified by role (i-th parameter, "assigned from the loader call", "the value sent on the
+//     channel", "the field it selects"), never by name;
+//   - ordered event lists are built over the function with calls into unexported same-package helpers followed
+//     (x.WalkInlined / the small flow tracker below), so extracting or inlining a helper does not change them;
+//   - the AST is normalised first (package constants inlined, switch -> if chains); constants whose value is not
+//     a literal (minRefresh = time.Second) are resolved here;
+//   - callee names are compared only where they are exported / standard library (time.Sleep, reflect.DeepEqual,
+//     strings.ToLower, sort.Strings, atomic Load/Store) or referenced by the hook cert/verif_c11.go (watch,
+//     getCertificate, loadCertificates, Store.certstore: renaming those breaks the harness build anyway).
 func init() {
 	register("C11", func(x *X) error {
-		// ---- watch ----
-		if fd := x.funcDecl("cert", "", "watch"); fd != nil {
-			var loop *ast.ForStmt
-			var floorCond, floorAssign, onceExpr string
-			for _, st := range fd.Body.List {
-				switch s := st.(type) {
-				case *ast.ForStmt:
-					if loop == nil {
-						loop = s
-					}
-				case *ast.IfStmt:
-					if loop == nil && len(s.Body.List) == 1 && s.Else == nil {
-						floorCond, floorAssign = x.src(s.Cond), x.src(s.Body.List[0])
-					}
-				case *ast.AssignStmt:
-					if len(s.Lhs) == 1 && x.src(s.Lhs[0]) == "once" && len(s.Rhs) == 1 {
-						onceExpr = x.src(s.Rhs[0])
-					}
-				}
+		x.UseNormalizedAST()
+		c11Watch(x)
+		c11Handshake(x)
+		c11Store(x)
+		c11Load(x)
+		return nil
+	})
+}
+
+const c11Dir = "cert"
+
+// ---- small helpers -------------------------------------------------------------------------------------------
+
+func c11ParamNames(fd *ast.FuncDecl) []string {
+	var ps []string
+	if fd.Type.Params != nil {
+		for _, p := range fd.Type.Params.List {
+			if len(p.Names) == 0 {
+				ps = append(ps, "_")
 			}
-			x.defStr("refreshFloorCond", floorCond)
-			x.defStr("refreshFloorAssign", floorAssign)
-			x.defStr("onceExpr", onceExpr)
-			if loop == nil {
-				x.fail("cert.watch: for loop not found")
-			} else {
-				if loop.Cond != nil || loop.Init != nil || loop.Post != nil {
-					x.fail("cert.watch: the loop is no longer `for {`")
+			for _, n := range p.Names {
+				ps = append(ps, n.Name)
+			}
+		}
+	}
+	return ps
+}
+
+func c11IdentName(e ast.Expr) string {
+	for {
+		p, ok := e.(*ast.ParenExpr)
+		if !ok {
+			break
+		}
+		e = p.X
+	}
+	if id, ok := e.(*ast.Ident); ok {
+		return id.Name
+	}
+	return ""
+}
+
+// c11Callee renders the callee of a call: "pkg.Func" for a selector on an identifier, ".Method" for any other
+// selector (receiver spelling ignored), "name" for a plain identifier.
+func c11Callee(c *ast.CallExpr) string {
+	switch f := c.Fun.(type) {
+	case *ast.Ident:
+		return f.Name
+	case *ast.SelectorExpr:
+		if id, ok := f.X.(*ast.Ident); ok && id.Obj == nil && c11IsPkg(id.Name) {
+			return id.Name + "." + f.Sel.Name
+		}
+		return "." + f.Sel.Name
+	}
+	return ""
+}
+
+func c11IsPkg(n string) bool {
+	switch n {
+	case "time", "reflect", "strings", "sort", "slices", "log", "tls", "x509", "errors", "fmt", "atomic":
+		return true
+	}
+	return false
+}
+
+// c11ResolveConst follows package-level constants of the package to their defining expression
+// (minRefresh -> time.Second); anything else is returned unchanged.
+func c11ResolveConst(x *X, e ast.Expr) ast.Expr {
+	for depth := 0; depth < 6; depth++ {
+		name := c11IdentName(e)
+		if name == "" {
+			return e
+		}
+		var val ast.Expr
+		for _, f := range x.files(c11Dir) {
+			for _, d := range f.Decls {
+				gd, ok := d.(*ast.GenDecl)
+				if !ok || gd.Tok != token.CONST {
+					continue
 				}
-				var conds []string
-				var sleeps []bool
-				var walk func(b *ast.BlockStmt, cond string)
-				walk = func(b *ast.BlockStmt, cond string) {
-					slept := false
-					for _, st := range b.List {
-						switch s := st.(type) {
-						case *ast.ExprStmt:
-							if c, ok := s.X.(*ast.CallExpr); ok && x.src(c.Fun) == "time.Sleep" {
-								slept = true
-							}
-						case *ast.BranchStmt:
-							if s.Tok == token.CONTINUE {
-								conds = append(conds, cond)
-								sleeps = append(sleeps, slept)
-							}
-						case *ast.IfStmt:
-							walk(s.Body, x.src(s.Cond))
-							if eb, ok := s.Else.(*ast.BlockStmt); ok {
-								walk(eb, "else of "+x.src(s.Cond))
-							}
-						case *ast.BlockStmt:
-							walk(s, cond)
+				for _, s := range gd.Specs {
+					vs := s.(*ast.ValueSpec)
+					for i, n := range vs.Names {
+						if n.Name == name && i < len(vs.Values) {
+							val = vs.Values[i]
 						}
 					}
 				}
-				walk(loop.Body, "")
-				x.defStrList("continueConds", conds)
-				bs := make([]string, len(sleeps))
-				for i, b := range sleeps {
-					bs[i] = "false"
-					if b {
-						bs[i] = "true"
+			}
+		}
+		if val == nil {
+			return e
+		}
+		e = val
+	}
+	return e
+}
+
+// c11Flow tracks, along an inlined walk, where a local or a helper parameter got its value: `v := e` and the
+// binding of a callee's parameters to the call's arguments (most recent definition wins; walk order is
+// execution order for straight-line code).
+type c11Flow struct {
+	x   *X
+	env map[string]ast.Expr
+}
+
+func (f *c11Flow) resolve(e ast.Expr) ast.Expr {
+	for depth := 0; depth < 8; depth++ {
+		switch v := e.(type) {
+		case *ast.ParenExpr:
+			e = v.X
+			continue
+		case *ast.Ident:
+			r, ok := f.env[v.Name]
+			if !ok {
+				return e
+			}
+			if id, ok := r.(*ast.Ident); ok && id.Name == v.Name {
+				return e
+			}
+			e = r
+			continue
+		}
+		return e
+	}
+	return e
+}
+
+func (f *c11Flow) walk(fd *ast.FuncDecl, visit func(n ast.Node) bool) {
+	f.x.WalkInlined(c11Dir, fd, func(n ast.Node) bool {
+		switch v := n.(type) {
+		case *ast.AssignStmt:
+			if v.Tok == token.DEFINE {
+				if len(v.Lhs) == len(v.Rhs) {
+					for i, l := range v.Lhs {
+						if name := c11IdentName(l); name != "" && name != "_" {
+							f.env[name] = f.resolve(v.Rhs[i])
+						}
+					}
+				} else if len(v.Rhs) == 1 {
+					if name := c11IdentName(v.Lhs[0]); name != "" && name != "_" {
+						f.env[name] = f.resolve(v.Rhs[0])
 					}
 				}
-				x.defRaw("def continueSleeps : List Bool := [" + strings.Join(bs, ", ") + "]")
-				var args []string
-				for _, c := range x.calls(loop.Body, "time.Sleep") {
-					if len(c.Args) == 1 {
-						args = append(args, x.src(c.Args[0]))
+			}
+		case *ast.CallExpr:
+			name := ""
+			switch fn := v.Fun.(type) {
+			case *ast.Ident:
+				name = fn.Name
+			case *ast.SelectorExpr:
+				name = fn.Sel.Name
+			}
+			if name != "" && !ast.IsExported(name) {
+				if callee := f.x.anyFuncDecl(c11Dir, name); callee != nil {
+					ps := c11ParamNames(callee)
+					if len(ps) == len(v.Args) {
+						for i, p := range ps {
+							if p != "_" {
+								f.env[p] = f.resolve(v.Args[i])
+							}
+						}
 					}
 				}
-				x.defStrList("sleepArgs", args)
-				// sends on the channel and what follows
-				nsend := 0
-				ast.Inspect(loop.Body, func(n ast.Node) bool {
-					if s, ok := n.(*ast.SendStmt); ok {
-						nsend++
-						_ = s
+			}
+		}
+		return visit(n)
+	})
+}
+
+// c11Describe names what an expression is, independent of local spelling: the selected field, the callee, a
+// literal, or "?".
+func c11Describe(x *X, e ast.Expr) string {
+	switch v := e.(type) {
+	case *ast.SelectorExpr:
+		return "field:" + v.Sel.Name
+	case *ast.CallExpr:
+		return "call:" + c11Callee(v)
+	case *ast.BasicLit:
+		return x.src(v)
+	}
+	return "?"
+}
+
+// ---- watch ---------------------------------------------------------------------------------------------------
+
+func c11Watch(x *X) {
+	fd := x.funcDecl(c11Dir, "", "watch")
+	if fd == nil {
+		return
+	}
+	ps := c11ParamNames(fd)
+	if len(ps) != 4 {
+		x.fail("cert.watch: expected 4 parameters (channel, refresh, path, loader), found %d", len(ps))
+		return
+	}
+	role := map[string]string{ps[0]: "ch", ps[1]: "refresh", ps[2]: "path", ps[3]: "loadFn"}
+	is := func(e ast.Expr, r string) bool { n := c11IdentName(e); return n != "" && role[n] == r }
+
+	// statements before the loop: the once flag and the floor, in this order
+	var loop *ast.ForStmt
+	onceExpr, floor := "", ""
+	onceIdx, floorIdx := -1, -1
+	for i, st := range fd.Body.List {
+		if f, ok := st.(*ast.ForStmt); ok {
+			loop = f
+			break
+		}
+		switch s := st.(type) {
+		case *ast.AssignStmt:
+			if s.Tok == token.DEFINE && len(s.Lhs) == 1 && len(s.Rhs) == 1 {
+				if be, ok := s.Rhs[0].(*ast.BinaryExpr); ok && is(be.X, "refresh") {
+					role[c11IdentName(s.Lhs[0])] = "once"
+					onceExpr = "refresh " + be.Op.String() + " " + x.src(c11ResolveConst(x, be.Y))
+					onceIdx = i
+				}
+			}
+			// refresh = max(refresh, X)
+			if s.Tok == token.ASSIGN && len(s.Lhs) == 1 && len(s.Rhs) == 1 && is(s.Lhs[0], "refresh") {
+				if c, ok := s.Rhs[0].(*ast.CallExpr); ok && c11Callee(c) == "max" && len(c.Args) == 2 {
+					for k := 0; k < 2; k++ {
+						if is(c.Args[k], "refresh") {
+							floor, floorIdx = x.src(c11ResolveConst(x, c.Args[1-k])), i
+						}
+					}
+				}
+			}
+		case *ast.IfStmt:
+			// if refresh < X { refresh = X }
+			be, ok := s.Cond.(*ast.BinaryExpr)
+			if ok && s.Else == nil && s.Init == nil && len(s.Body.List) == 1 && be.Op == token.LSS && is(be.X, "refresh") {
+				if as, ok := s.Body.List[0].(*ast.AssignStmt); ok && as.Tok == token.ASSIGN && len(as.Lhs) == 1 && len(as.Rhs) == 1 && is(as.Lhs[0], "refresh") {
+					a, b := x.src(c11ResolveConst(x, be.Y)), x.src(c11ResolveConst(x, as.Rhs[0]))
+					if a == b {
+						floor, floorIdx = a, i
+					}
+				}
+			}
+		}
+	}
+	x.defStr("refreshFloor", floor)
+	x.defStr("onceExpr", onceExpr)
+	x.defBool("onceBeforeFloor", onceIdx >= 0 && floorIdx >= 0 && onceIdx < floorIdx)
+	if loop == nil {
+		x.fail("cert.watch: for loop not found")
+		return
+	}
+	if loop.Cond != nil || loop.Init != nil || loop.Post != nil {
+		x.fail("cert.watch: the loop is no longer `for {`")
+	}
+
+	// pass 1: roles of the locals of the loop
+	for _, st := range loop.Body.List {
+		as, ok := st.(*ast.AssignStmt)
+		if !ok || len(as.Rhs) != 1 {
+			continue
+		}
+		if c, ok := as.Rhs[0].(*ast.CallExpr); ok {
+			switch {
+			case is(c.Fun, "loadFn"):
+				if len(as.Lhs) == 2 {
+					role[c11IdentName(as.Lhs[0])] = "next"
+				}
+			case len(c.Args) == 1 && is(c.Args[0], "next") && len(as.Lhs) == 2:
+				role[c11IdentName(as.Lhs[0])] = "certs"
+			}
+		} else if as.Tok == token.ASSIGN && len(as.Lhs) == 1 && is(as.Rhs[0], "next") {
+			role[c11IdentName(as.Lhs[0])] = "last"
+		}
+	}
+
+	// does a statement sleep for `refresh`? helpers are followed with the parameter bound to the argument
+	var sleeps func(n ast.Node, refreshName string, depth int) string
+	sleeps = func(n ast.Node, refreshName string, depth int) string {
+		res := ""
+		ast.Inspect(n, func(m ast.Node) bool {
+			c, ok := m.(*ast.CallExpr)
+			if !ok || res != "" {
+				return res == ""
+			}
+			if c11Callee(c) == "time.Sleep" && len(c.Args) == 1 {
+				if c11IdentName(c.Args[0]) == refreshName && refreshName != "" {
+					res = "sleep"
+				} else {
+					res = "sleep(?)"
+				}
+				return false
+			}
+			name := c11Callee(c)
+			if depth < 4 && name != "" && !strings.Contains(name, ".") && !ast.IsExported(name) {
+				if callee := x.anyFuncDecl(c11Dir, name); callee != nil {
+					cps := c11ParamNames(callee)
+					bound := ""
+					for i, a := range c.Args {
+						if i < len(cps) && c11IdentName(a) == refreshName && refreshName != "" {
+							bound = cps[i]
+						}
+					}
+					if r := sleeps(callee.Body, bound, depth+1); r != "" {
+						res = r
+						return false
+					}
+				}
+			}
+			return true
+		})
+		return res
+	}
+
+	// guard kinds
+	lastCall := ""
+	errOf := map[string]string{} // error variable -> which call assigned it most recently
+	var guard func(cond ast.Expr, depth int) string
+	guard = func(cond ast.Expr, depth int) string {
+		switch c := cond.(type) {
+		case *ast.ParenExpr:
+			return guard(c.X, depth)
+		case *ast.Ident:
+			if role[c.Name] == "once" {
+				return "once"
+			}
+		case *ast.BinaryExpr:
+			if c.Op == token.NEQ {
+				a, b := c11IdentName(c.X), c11IdentName(c.Y)
+				if b == "nil" && errOf[a] != "" {
+					return errOf[a] + "-error"
+				}
+				if a == "nil" && errOf[b] != "" {
+					return errOf[b] + "-error"
+				}
+			}
+		case *ast.CallExpr:
+			if c11Callee(c) == "reflect.DeepEqual" && len(c.Args) == 2 &&
+				(is(c.Args[0], "next") && is(c.Args[1], "last") || is(c.Args[0], "last") && is(c.Args[1], "next")) {
+				return "unchanged"
+			}
+			// an unexported helper that is just `return reflect.DeepEqual(p, q)` on its two parameters
+			name := c11Callee(c)
+			if depth < 2 && name != "" && !strings.Contains(name, ".") && len(c.Args) == 2 &&
+				(is(c.Args[0], "next") && is(c.Args[1], "last") || is(c.Args[0], "last") && is(c.Args[1], "next")) {
+				if callee := x.anyFuncDecl(c11Dir, name); callee != nil && len(callee.Body.List) == 1 {
+					cps := c11ParamNames(callee)
+					if rs, ok := callee.Body.List[0].(*ast.ReturnStmt); ok && len(rs.Results) == 1 && len(cps) == 2 {
+						if rc, ok := rs.Results[0].(*ast.CallExpr); ok && c11Callee(rc) == "reflect.DeepEqual" && len(rc.Args) == 2 {
+							a, b := c11IdentName(rc.Args[0]), c11IdentName(rc.Args[1])
+							if a != b && (a == cps[0] || a == cps[1]) && (b == cps[0] || b == cps[1]) {
+								return "unchanged"
+							}
+						}
+					}
+				}
+			}
+		}
+		return "other"
+	}
+
+	// events of a block, in order
+	var blockEvents func(b *ast.BlockStmt) []string
+	var stmtEvents func(st ast.Stmt) []string
+	stmtEvents = func(st ast.Stmt) []string {
+		switch s := st.(type) {
+		case *ast.ExprStmt:
+			if c, ok := s.X.(*ast.CallExpr); ok {
+				if strings.HasPrefix(c11Callee(c), "log.") {
+					return nil
+				}
+				if r := sleeps(s, ps[1], 0); r != "" {
+					return []string{r}
+				}
+			}
+			return []string{"other"}
+		case *ast.AssignStmt:
+			if len(s.Rhs) == 1 {
+				if c, ok := s.Rhs[0].(*ast.CallExpr); ok {
+					switch {
+					case is(c.Fun, "loadFn"):
+						lastCall = "load"
+						if len(s.Lhs) == 2 {
+							errOf[c11IdentName(s.Lhs[1])] = "load"
+						}
+						if len(c.Args) == 1 && is(c.Args[0], "path") {
+							return []string{"load"}
+						}
+						return []string{"load(?)"}
+					case len(c.Args) == 1 && is(c.Args[0], "next") && len(s.Lhs) == 2 && is(s.Lhs[0], "certs"):
+						lastCall = "make"
+						errOf[c11IdentName(s.Lhs[1])] = "make"
+						return []string{"make:" + c11Callee(c)}
+					}
+				}
+				if s.Tok == token.ASSIGN && len(s.Lhs) == 1 && is(s.Lhs[0], "last") && is(s.Rhs[0], "next") {
+					return []string{"remember"}
+				}
+			}
+			return []string{"other"}
+		case *ast.SendStmt:
+			if is(s.Chan, "ch") && is(s.Value, "certs") {
+				return []string{"send"}
+			}
+			return []string{"send(?)"}
+		case *ast.BranchStmt:
+			if s.Tok == token.CONTINUE && s.Label == nil {
+				return []string{"continue"}
+			}
+			return []string{"other"}
+		case *ast.ReturnStmt:
+			return []string{"return"}
+		case *ast.IfStmt:
+			if s.Init != nil {
+				return []string{"other"}
+			}
+			ev := "if " + guard(s.Cond, 0) + ": " + strings.Join(blockEvents(s.Body), " ")
+			if s.Else != nil {
+				if eb, ok := s.Else.(*ast.BlockStmt); ok {
+					ev += " else: " + strings.Join(blockEvents(eb), " ")
+				} else {
+					ev += " else: other"
+				}
+			}
+			return []string{ev}
+		case *ast.BlockStmt:
+			return blockEvents(s)
+		case *ast.EmptyStmt:
+			return nil
+		}
+		return []string{"other"}
+	}
+	blockEvents = func(b *ast.BlockStmt) []string {
+		var out []string
+		for _, st := range b.List {
+			out = append(out, stmtEvents(st)...)
+		}
+		return out
+	}
+	_ = lastCall
+	x.defStrList("watchLoopEvents", blockEvents(loop.Body))
+}
+
+// ---- TLSConfig / GetCertificate closure / getCertificate --------------------------------------------------------
+
+func c11Handshake(x *X) {
+	fd := x.funcDecl(c11Dir, "", "TLSConfig")
+	if fd == nil {
+		return
+	}
+	var getCert *ast.FuncLit
+	ast.Inspect(fd.Body, func(n ast.Node) bool {
+		if kv, ok := n.(*ast.KeyValueExpr); ok && c11IdentName(kv.Key) == "GetCertificate" {
+			if fl, ok := kv.Value.(*ast.FuncLit); ok {
+				getCert = fl
+			}
+		}
+		return true
+	})
+	if getCert == nil {
+		x.fail("cert.TLSConfig: GetCertificate function literal not found")
+	} else {
+		// the closure with every unexported same-package callee followed: atomic loads and decision calls
+		syn := &ast.FuncDecl{Name: ast.NewIdent("GetCertificate closure"), Type: getCert.Type, Body: getCert.Body}
+		loads, decisions := 0, 0
+		x.WalkInlined(c11Dir, syn, func(n ast.Node) bool {
+			if c, ok := n.(*ast.CallExpr); ok {
+				switch c11Callee(c) {
+				case ".Load":
+					loads++
+				case "getCertificate":
+					decisions++
+				}
+			}
+			return true
+		})
+		x.defNat("handshakeAtomicLoads", uint64(loads))
+		x.defNat("handshakeDecisionCalls", uint64(decisions))
+	}
+	// updates: exactly one place applies a set, inside a range over the source's channel
+	apply, inRange := 0, 0
+	ast.Inspect(fd.Body, func(n ast.Node) bool {
+		switch v := n.(type) {
+		case *ast.CallExpr:
+			if c11Callee(v) == ".SetCertificates" {
+				apply++
+			}
+		case *ast.RangeStmt:
+			if c, ok := v.X.(*ast.CallExpr); ok && c11Callee(c) == ".Certificates" {
+				ast.Inspect(v.Body, func(m ast.Node) bool {
+					if c, ok := m.(*ast.CallExpr); ok && c11Callee(c) == ".SetCertificates" {
+						inRange++
 					}
 					return true
 				})
-				x.defNat("watchSends", uint64(nsend))
-				x.defNat("watchLoaderCalls", uint64(len(x.calls(loop.Body, "loadFn"))))
-				x.defNat("watchMakeCalls", uint64(len(x.calls(loop.Body, "loadCertificates"))))
 			}
 		}
+		return true
+	})
+	x.defNat("tlsConfigApplySites", uint64(apply))
+	x.defNat("tlsConfigApplySitesInRangeOverSource", uint64(inRange))
 
-		// ---- TLSConfig: one store load per handshake; the only SetCertificates call site ----
-		if fd := x.funcDecl("cert", "", "TLSConfig"); fd != nil {
-			var getCert *ast.FuncLit
-			ast.Inspect(fd.Body, func(n ast.Node) bool {
-				if kv, ok := n.(*ast.KeyValueExpr); ok && x.src(kv.Key) == "GetCertificate" {
-					if fl, ok := kv.Value.(*ast.FuncLit); ok {
-						getCert = fl
-					}
-				}
-				return true
-			})
-			if getCert == nil {
-				x.fail("cert.TLSConfig: GetCertificate function literal not found")
-			} else {
-				x.defNat("handshakeStoreLoads", uint64(len(x.calls(getCert, "store.certstore"))))
-				gc := x.calls(getCert, "getCertificate")
-				x.defNat("handshakeGetCertificateCalls", uint64(len(gc)))
-				if len(gc) == 1 && len(gc[0].Args) == 3 {
-					x.defStr("handshakeGetCertificateArg0", x.src(gc[0].Args[0]))
-				} else {
-					x.defStr("handshakeGetCertificateArg0", "")
-				}
-			}
-			x.defNat("tlsConfigSetCertificatesCalls", uint64(len(x.calls(fd.Body, "store.SetCertificates"))))
-		}
-		if fd := x.funcDecl("cert", "Store", "certstore"); fd != nil {
-			x.defNat("certstoreLoads", uint64(len(x.calls(fd.Body, "s.cs.Load"))))
-		}
-		if fd := x.funcDecl("cert", "", "getCertificate"); fd != nil {
-			// the function works on the value it is given: no further load of shared state
-			n := 0
-			ast.Inspect(fd.Body, func(nd ast.Node) bool {
-				if se, ok := nd.(*ast.SelectorExpr); ok && (se.Sel.Name == "Load" || se.Sel.Name == "certstore") {
-					n++
-				}
-				return true
-			})
-			x.defNat("getCertificateSharedReads", uint64(n))
-			if len(fd.Type.Params.List) > 0 {
-				x.defStr("getCertificateParam0Type", x.src(fd.Type.Params.List[0].Type))
-			}
-			var low []string
-			for _, c := range x.calls(fd.Body, "strings.ToLower") {
+	// getCertificate (referenced by the hook): works on the value it is handed
+	gc := x.funcDecl(c11Dir, "", "getCertificate")
+	if gc == nil {
+		return
+	}
+	shared := 0
+	fl := &c11Flow{x: x, env: map[string]ast.Expr{}}
+	var lowered []string
+	fl.walk(gc, func(n ast.Node) bool {
+		if c, ok := n.(*ast.CallExpr); ok {
+			switch c11Callee(c) {
+			case ".Load", ".Store", ".certstore", ".Swap", ".CompareAndSwap":
+				shared++
+			case "strings.ToLower":
 				if len(c.Args) == 1 {
-					low = append(low, x.src(c.Args[0]))
+					lowered = append(lowered, c11Describe(x, fl.resolve(c.Args[0])))
 				}
 			}
-			x.defStrList("requestLowered", low)
 		}
-
-		// ---- SetCertificates: index built before the single atomic store ----
-		if fd := x.funcDecl("cert", "Store", "SetCertificates"); fd != nil {
-			var order []string
-			ast.Inspect(fd.Body, func(n ast.Node) bool {
-				if c, ok := n.(*ast.CallExpr); ok {
-					f := x.src(c.Fun)
-					if f == "cs.BuildNameToCertificate" || f == "s.cs.Store" {
-						order = append(order, f)
-					}
-				}
-				return true
-			})
-			x.defStrList("setCertificatesOrder", order)
+		return true
+	})
+	x.defNat("getCertificateSharedAccesses", uint64(shared))
+	x.defStrList("requestLowered", lowered)
+	// its first parameter is the (non-pointer) type that the store's loading method returns
+	byValue := false
+	if gc.Type.Params != nil && len(gc.Type.Params.List) > 0 {
+		pt := gc.Type.Params.List[0].Type
+		if _, ptr := pt.(*ast.StarExpr); !ptr {
+			if m := x.funcDecl(c11Dir, "Store", "certstore"); m != nil && m.Type.Results != nil && len(m.Type.Results.List) == 1 {
+				byValue = x.src(m.Type.Results.List[0].Type) == x.src(pt)
+			}
 		}
+	}
+	x.defBool("getCertificateTakesLoadedValue", byValue)
+}
 
-		// ---- BuildNameToCertificate: the keys ----
-		if fd := x.funcDecl("cert", "certstore", "BuildNameToCertificate"); fd != nil {
-			var keys []string
-			lowered := true
-			ast.Inspect(fd.Body, func(n ast.Node) bool {
-				as, ok := n.(*ast.AssignStmt)
-				if !ok {
-					return true
+// ---- Store.SetCertificates / BuildNameToCertificate -----------------------------------------------------------
+
+func c11Store(x *X) {
+	if fd := x.funcDecl(c11Dir, "Store", "SetCertificates"); fd != nil {
+		var order []string
+		x.WalkInlined(c11Dir, fd, func(n ast.Node) bool {
+			if c, ok := n.(*ast.CallExpr); ok {
+				switch c11Callee(c) {
+				case ".BuildNameToCertificate":
+					order = append(order, "build-index")
+				case ".Store", ".Swap", ".CompareAndSwap":
+					order = append(order, "atomic-store")
+				case "delete":
+					order = append(order, "map-delete")
 				}
+			}
+			if as, ok := n.(*ast.AssignStmt); ok {
 				for _, l := range as.Lhs {
-					ix, ok := l.(*ast.IndexExpr)
-					if !ok || x.src(ix.X) != "c.NameToCertificate" {
-						continue
-					}
-					keys = append(keys, x.src(ix.Index))
-					c, ok := ix.Index.(*ast.CallExpr)
-					if !ok || x.src(c.Fun) != "strings.ToLower" {
-						lowered = false
+					if ix, ok := l.(*ast.IndexExpr); ok {
+						if se, ok := ix.X.(*ast.SelectorExpr); ok && se.Sel.Name == "NameToCertificate" {
+							order = append(order, "map-write")
+						}
 					}
 				}
+			}
+			return true
+		})
+		// BuildNameToCertificate is exported, so WalkInlined does not enter it: its own writes are not listed
+		x.defStrList("setCertificatesOrder", order)
+	}
+	if fd := x.funcDecl(c11Dir, "certstore", "BuildNameToCertificate"); fd != nil {
+		fl := &c11Flow{x: x, env: map[string]ast.Expr{}}
+		n, lowered := 0, 0
+		fl.walk(fd, func(nd ast.Node) bool {
+			as, ok := nd.(*ast.AssignStmt)
+			if !ok {
 				return true
-			})
-			if len(keys) == 0 {
-				x.fail("cert.BuildNameToCertificate: no assignment into c.NameToCertificate found")
 			}
-			x.defStrList("indexKeys", keys)
-			x.defBool("indexKeysLowered", lowered && len(keys) > 0)
-		}
-
-		// ---- loadCertificates: sorted by file name ----
-		if fd := x.funcDecl("cert", "", "loadCertificates"); fd != nil {
-			var args []string
-			for _, c := range x.calls(fd.Body, "sort.Strings") {
-				if len(c.Args) == 1 {
-					args = append(args, x.src(c.Args[0]))
+			for _, l := range as.Lhs {
+				ix, ok := l.(*ast.IndexExpr)
+				if !ok {
+					continue
+				}
+				// the map: a field called NameToCertificate, or a helper parameter bound to that field
+				m := fl.resolve(ix.X)
+				se, ok := m.(*ast.SelectorExpr)
+				if !ok || se.Sel.Name != "NameToCertificate" {
+					continue
+				}
+				n++
+				if c, ok := fl.resolve(ix.Index).(*ast.CallExpr); ok && c11Callee(c) == "strings.ToLower" {
+					lowered++
 				}
 			}
-			x.defStrList("loadCertificatesSorts", args)
-			var suff []string
-			for _, c := range x.calls(fd.Body, "strings.HasSuffix") {
+			return true
+		})
+		if n == 0 {
+			x.fail("cert.BuildNameToCertificate: no assignment into the NameToCertificate map found")
+		}
+		x.defNat("indexKeyWrites", uint64(n))
+		x.defNat("indexKeyWritesLowered", uint64(lowered))
+	}
+}
+
+// ---- loadCertificates ----------------------------------------------------------------------------------------
+
+func c11Load(x *X) {
+	fd := x.funcDecl(c11Dir, "", "loadCertificates")
+	if fd == nil {
+		return
+	}
+	// the slice that is sorted is the slice the result is built from, and it is sorted before
+	sorted := map[string]token.Pos{}
+	nsort := 0
+	var suff []string
+	x.WalkInlined(c11Dir, fd, func(n ast.Node) bool {
+		if c, ok := n.(*ast.CallExpr); ok {
+			switch c11Callee(c) {
+			case "sort.Strings", "slices.Sort":
+				nsort++
+				if len(c.Args) == 1 {
+					if name := c11IdentName(c.Args[0]); name != "" {
+						sorted[name] = c.Pos()
+					}
+				}
+			case "strings.HasSuffix":
 				if len(c.Args) == 2 {
 					if s, ok := x.strLit(c.Args[1]); ok {
 						suff = append(suff, s)
+					} else {
+						suff = append(suff, "?")
 					}
 				}
 			}
-			x.defStrList("loadCertificatesSuffixes", suff)
 		}
-		return nil
+		return true
 	})
+	built := false
+	ast.Inspect(fd.Body, func(n ast.Node) bool {
+		rs, ok := n.(*ast.RangeStmt)
+		if !ok {
+			return true
+		}
+		pos, ok := sorted[c11IdentName(rs.X)]
+		if !ok || pos > rs.Pos() {
+			return true
+		}
+		// the loop appends to what the function returns first
+		ret := ""
+		for _, st := range fd.Body.List {
+			if r, ok := st.(*ast.ReturnStmt); ok && len(r.Results) >= 1 {
+				ret = c11IdentName(r.Results[0])
+			}
+		}
+		ast.Inspect(rs.Body, func(m ast.Node) bool {
+			if as, ok := m.(*ast.AssignStmt); ok && len(as.Lhs) == 1 && len(as.Rhs) == 1 && ret != "" && c11IdentName(as.Lhs[0]) == ret {
+				if c, ok := as.Rhs[0].(*ast.CallExpr); ok && c11Callee(c) == "append" {
+					built = true
+				}
+			}
+			return true
+		})
+		return true
+	})
+	x.defNat("loadCertificatesSortCalls", uint64(nsort))
+	x.defBool("resultBuiltFromSortedFileNames", built)
+	x.defStrList("loadCertificatesSuffixes", suff)
 }
